@@ -778,7 +778,7 @@ class DocTest:
                     self._skipped_parts.append(part)
                     continue
 
-                if not part.has_any_code():
+                if not part.has_any_code() and not part.want:
                     if DEBUG:
                         print(f'part[{partx}] No code, skipping')
                     self._skipped_parts.append(part)
